@@ -42,6 +42,6 @@ class SyncProducer:
     def stop(self):
         """Stop periodic transmission of SYNC message."""
         if self._task is not None:
-            self._task.stop()
             # Forget the task, some interfaces refuse to stop it twice
-            self._task = None
+            task, self._task = self._task, None
+            task.stop()
